@@ -110,10 +110,10 @@ def design(shape, f1, f2=None, full_rank=True, intercept=True):
     it would span in full is already spanned by earlier columns.
     """
     cols = [INTERCEPT] if intercept else []
-    if not intercept and shape != "f1+f2":
+    if not intercept and shape not in ("f1", "f1+f2"):
         raise Unmodelled("no-intercept " + shape)
     if shape == "f1":
-        cols += f1.cols(reduced=full_rank and f1.kind == "cat")
+        cols += f1.cols(reduced=full_rank and f1.kind == "cat" and intercept)
     elif shape == "f1+f2":
         # a categorical main effect is reduced exactly when the constant is already spanned: by the intercept or
         # by an earlier categorical main effect that is coded in full
